@@ -335,8 +335,8 @@ def c09_this_scoped(ninst: int, member: int, nsdepth: int) -> bool:
 
 
 EXPORT_CLASSES = [
-    ("class Plain { Plain(); void serialize() const; };", "gt::Plain"),
-    ("template<A = {int}, B = {double, gt::Plain}> class Pair { Pair(); void serialize() const; };", None),
+    ("class Plain { Plain(); void serialize() const; void serializable() const; };", "gt::Plain"),
+    ("template<A = {int}, B = {double, gt::Plain}> class Pair { Pair(); void serialize() const; void serializable() const; };", None),      # both spellings: still one export each
     ("template<A = {gt::Plain}> class One { One(); void serializable() const; };", None),
     ("template<A = {int}, B = {std::vector<double>}, C = {string}> class Tri { Tri(); void serialize() const; };", None),
 ]
